@@ -77,6 +77,8 @@ def find_EventDataset(a: ast.AST) -> ast.Call:
             if self.ds is not None:
                 raise Exception("AST Query has more than one EventDataset in it!")
             self.ds = node
+            # A second root can sit among the arguments of the first
+            self.generic_visit(node)
             return node
 
     ds_f = ds_finder()
